@@ -46,6 +46,8 @@ var deviations = []deviation{
 	{"deal-for-somebody-else", "state_dkg_deals_await_confirmations"},
 	{"deal-commitments-agree-only-at-the-addressee", "state_dkg_deals_await_confirmations"},
 	{"deal-is-the-self-confirmation-marker", "state_dkg_deals_await_confirmations"},
+	// 450 KB of noise: fits a line of the board; whatever the addressee's machine says about it must fit one too
+	{"deal-large-noise", "state_dkg_deals_await_confirmations"},
 	{"response-complaint", "state_dkg_responses_await_confirmations"},
 	// the same complaint, signed by its author (the deviating participant holds its long-term key): a well-formed complaint
 	{"response-complaint-signed", "state_dkg_responses_await_confirmations"},
@@ -163,6 +165,10 @@ func (a *algRun) c11Scenario(outDir string, n, t, dealer, victim int, dev deviat
 					req.Deal = []byte{}
 				case "deal-shorter-than-a-point":
 					req.Deal = req.Deal[:16]
+				case "deal-large-noise":
+					big := make([]byte, 450*1024)
+					a.rng.Read(big)
+					req.Deal = big
 				case "deal-is-the-self-confirmation-marker":
 					// the literal 12 bytes every participant sends to ITSELF in place of a deal, sent to somebody else as the
 					// dealer's deal: not a ciphertext at all (the marker is in-band: nothing ties it to its sender)
